@@ -50,6 +50,76 @@ harness_job("C02_matrix", extra_link="")
 std_replayer("C02", "C02_matrix", extra_link="")
 REPLAYERS["C03"] = lambda ctx, path: P.harness_replay_fn(ck.build_harness("C02_matrix", "asan", extra_link=""), "C03", ["--prop", "C03"])(path)
 
+def c02_tool_cell(tools, helper, wd, spec):
+    """one command-line cell: jwt-generate / jwt-verify given an explicit -a that differs from the key's alg attribute must refuse. Returns '' or the clause."""
+    import subprocess, base64
+    fixture, keyalg, explicit, mode, tool = spec["fixture"], spec["keyalg"], spec["explicit"], spec["mode"], spec["tool"]
+    env = dict(os.environ); env.update(ck.SAN_ENV)
+    pre = os.path.join(wd, f"{fixture}-{keyalg}")
+    if not os.path.exists(pre + ".json"):
+        if fixture.startswith("oct"):
+            subprocess.run([helper, "gen", fixture, pre, "0"], env=env, stdout=subprocess.DEVNULL, stderr=subprocess.DEVNULL); src = pre + ".bin"
+        else:
+            subprocess.run([helper, "copyfix", fixture, pre], env=env, stdout=subprocess.DEVNULL, stderr=subprocess.DEVNULL); src = pre + ".pem"
+        for form in ("priv", "pub"):
+            r = subprocess.run([helper, "mkjwk", src, keyalg, form], env=env, stdout=subprocess.PIPE, stderr=subprocess.DEVNULL, text=True)
+            open(pre + (".json" if form == "priv" else "_pub.json"), "w").write(r.stdout)
+        r = subprocess.run([helper, "token", src, keyalg, '{"sub":"c02"}'], env=env, stdout=subprocess.PIPE, stderr=subprocess.DEVNULL, text=True)
+        open(pre + ".tok", "w").write(r.stdout.strip())
+    flags = {"quiet": ["-q"], "default": [], "verbose": ["-v"]}[mode]
+    if tool == "jwt-generate":
+        r = subprocess.run([os.path.join(tools, "jwt-generate"), "-a", explicit, "-k", pre + ".json"] + flags, env=env, stdout=subprocess.PIPE, stderr=subprocess.PIPE, text=True, timeout=120)
+        if explicit == keyalg:
+            return "" if r.returncode == 0 else "tool-refuses-matching-explicit-alg:jwt-generate"
+        if r.returncode == 0:
+            tok = [l for l in r.stdout.strip().split("\n") if l.count(".") == 2 and l.startswith("ey")]
+            alg = "?"
+            if tok:
+                h = tok[-1].split(".")[0]; h += "=" * (-len(h) % 4)
+                try: alg = json.loads(base64.urlsafe_b64decode(h)).get("alg", "?")
+                except Exception: pass
+            return f"tool-produces-token-although-explicit-alg-differs-from-key-alg:jwt-generate:{mode}"
+        return ""
+    pub = pre + ("_pub.json" if not fixture.startswith("oct") else ".json")
+    r = subprocess.run([os.path.join(tools, "jwt-verify"), "-a", explicit, "-k", pub] + flags + [open(pre + ".tok").read()], env=env, stdout=subprocess.PIPE, stderr=subprocess.PIPE, text=True, timeout=120)
+    if explicit == keyalg:
+        return "" if r.returncode == 0 else "tool-refuses-matching-explicit-alg:jwt-verify"
+    return f"tool-verifies-although-explicit-alg-differs-from-key-alg:jwt-verify:{mode}" if r.returncode == 0 else ""
+
+
+C02_TOOL_SPECS = [{"fixture": f, "keyalg": ka, "explicit": ex, "mode": m, "tool": t}
+                  for f, ka, exs in (("rsa_2048", "PS256", ["PS256", "RS256", "PS512", "ES256", "HS256"]), ("rsa_2048", "RS384", ["RS384", "RS256", "PS384"]),
+                                     ("ec_p256", "ES256", ["ES256", "ES256K", "ES384", "RS256", "HS256"]), ("oct64", "HS256", ["HS256", "HS512", "RS256"]), ("ed25519", "EdDSA", ["EdDSA", "ES256"]))
+                  for ex in exs for m in ("quiet", "default", "verbose") for t in ("jwt-generate", "jwt-verify")]
+
+
+def c02_tools(ctx, cov):
+    """the command-line tools are applications that pin an explicit algorithm (-a) next to a key: the pair must be refused when the key names another one"""
+    import tempfile
+    bdir = ck.build_lib("asan", tools=True); helper = ck.build_harness("C20_helper", "asan", extra_link="")
+    os.makedirs(P.OUT, exist_ok=True); wd = tempfile.mkdtemp(prefix="C02-tools-", dir=P.OUT); n = 0
+    for spec in C02_TOOL_SPECS:
+        r = c02_tool_cell(os.path.join(bdir, "tools"), helper, wd, spec); n += 1
+        if r:
+            def confirm(path, spec=spec, bdir=bdir, helper=helper, wd=wd): return bool(c02_tool_cell(os.path.join(bdir, "tools"), helper, wd, spec))
+            P.handle_violation(ctx, "C02:" + r, f"{spec['tool']} -a {spec['explicit']} with a {spec['fixture']} key whose alg attribute is {spec['keyalg']} ({spec['mode']} mode)", {"kind": "tool", "spec": spec}, confirm)
+    cov["tool_cells"] = n
+    cov.setdefault("classes", {})["tool-cells(jwt-generate/jwt-verify -a vs key alg)"] = n
+    if not ctx.violations: shutil.rmtree(wd, ignore_errors=True)
+
+
+def c02_replay(ctx, path):
+    j = json.load(open(path))
+    if j.get("kind") == "tool":
+        import tempfile
+        bdir = ck.build_lib("asan", tools=True); helper = ck.build_harness("C20_helper", "asan", extra_link="")
+        wd = tempfile.mkdtemp(prefix="C02-tools-replay-", dir=P.OUT)
+        try: return bool(c02_tool_cell(os.path.join(bdir, "tools"), helper, wd, j["spec"]))
+        finally: shutil.rmtree(wd, ignore_errors=True)
+    return P.harness_replay_fn(ck.build_harness("C02_matrix", "asan", extra_link=""), "C02")(path)
+REPLAYERS["C02"] = c02_replay
+
+
 MATRIX_ASSUME = ["reference signer/verifier in vkeys.h (raw OpenSSL EVP) decides cryptographic validity",
                  "keys are imported through the public JWK loader; errored items are not passed to setkey",
                  "GnuTLS: no positive assertion for ES256K / secp256k1 (unsupported there)"]
@@ -67,6 +137,8 @@ def c02(ctx):
             "any keyed cell (builder); cells are distinct by construction.")
     cov, mn = P.generic_harness_check(ctx, "C02_matrix", rule, MATRIX_ASSUME, extra_link="", exhaustive=True,
                                       min_nontrivial={"quick": 50000, "thorough": 50000})
+    if not ctx.violations:
+        c02_tools(ctx, cov)
     return P.finish(ctx, "exploration", cov, MATRIX_ASSUME, mn)
 
 
